@@ -200,30 +200,45 @@ fn copy_part_char() {
     kani::cover!(c == '+');
 }
 
-// @obl props=C15,C16 tier=quick fns=ShortNameGenerator::new,ShortNameGenerator::copy_short_name_part,ShortNameGenerator::checksum
-// @bound bounded: names of one arbitrary char (any scalar value, so multi-byte first characters are included) followed by at most 2 ASCII chars, and the empty name
-// @desc ShortNameGenerator::new never panics (empty name, multi-byte first character, only dots/spaces included) and establishes the generator invariant inv_gen: base name = legal characters then padding, extension likewise, at most 8+3, empty base name implies lossy
+// @obl props=C15,C16 tier=quick fns=ShortNameGenerator::new
+// @desc ShortNameGenerator::new("") does not panic (creation/rename of an empty name must fail with the name-length error, not a slice-index panic) and yields a generator satisfying inv_gen
 #[kani::proof]
 #[kani::unwind(13)]
-fn sfngen_new_total() {
+fn sfngen_new_empty() {
+    let g = ShortNameGenerator::new("");
+    assert!(inv_gen(&g));
+    kani::cover!(true);
+}
+
+// @obl props=C15,C16 tier=quick fns=ShortNameGenerator::new,ShortNameGenerator::copy_short_name_part,ShortNameGenerator::checksum
+// @desc for EVERY single-character name (all scalar values: multi-byte first characters included): ShortNameGenerator::new does not panic and establishes inv_gen (base name = legal characters then padding, extension likewise, empty base name implies lossy)
+#[kani::proof]
+#[kani::unwind(13)]
+fn sfngen_new_one_char() {
     let c: char = kani::any();
-    let mut buf = [0u8; 6];
-    let n1 = c.encode_utf8(&mut buf[..4]).len();
-    let t: [u8; 2] = kani::any();
-    kani::assume(t[0] < 0x80 && t[1] < 0x80);
-    let extra: usize = kani::any();
-    kani::assume(extra <= 2);
-    buf[n1] = t[0];
-    buf[n1 + 1] = t[1];
-    let empty: bool = kani::any();
-    let len = if empty { 0 } else { n1 + extra };
-    let s = unsafe { core::str::from_utf8_unchecked(&buf[..len]) };
+    let mut buf = [0u8; 4];
+    let s: &str = c.encode_utf8(&mut buf);
     let g = ShortNameGenerator::new(s);
     assert!(inv_gen(&g));
     assert!(!g.exact_match && g.long_prefix_bitmap == 0 && g.prefix_chksum_bitmap == 0);
-    kani::cover!(empty);
-    kani::cover!(n1 == 3 && extra == 2 && t[0] == b'.');
-    kani::cover!(g.basename_len == 0 && !empty);
+    kani::cover!(c as u32 > 0x7FF);
+    kani::cover!(g.basename_len == 0);
+}
+
+// @obl props=C15,C16 tier=quick fns=ShortNameGenerator::new,ShortNameGenerator::copy_short_name_part timeout=900
+// @bound bounded: names of 2 or 3 ASCII characters, all symbolic (dots and spaces anywhere)
+// @desc ShortNameGenerator::new never panics and establishes inv_gen; the extension is what follows the LAST dot (a leading dot is not an extension separator)
+#[kani::proof]
+#[kani::unwind(13)]
+fn sfngen_new_ascii3() {
+    let buf: [u8; 4] = kani::any();
+    kani::assume(buf[0] < 0x80 && buf[1] < 0x80 && buf[2] < 0x80);
+    let len: usize = kani::any();
+    kani::assume(len == 2 || len == 3);
+    let g = ShortNameGenerator::new(ascii_str(&buf, len));
+    assert!(inv_gen(&g));
+    kani::cover!(buf[0] == b'.' && len == 3);
+    kani::cover!(buf[1] == b'.' && g.short_name[8] != b' ');
 }
 
 // @obl props=C16 tier=quick fns=ShortNameGenerator::generate,ShortNameGenerator::build_prefixed_name,ShortNameGenerator::u16_to_hex
@@ -426,4 +441,186 @@ fn should_skip_entry_contract() {
     kani::cover!(!skip && is_lfn);
     core::mem::forget(it);
     core::mem::forget(fs);
+}
+
+
+// ---- C17 / C19: long-name assembly (LongNameBuilder), one step from representative states, all slot contents ----
+
+fn any_lfn_slot(order: u8, checksum: u8) -> DirLfnEntryData {
+    let mut e = DirLfnEntryData::new(order, checksum);
+    let part: [u16; 13] = kani::any();
+    e.copy_name_from_slice(&part);
+    e
+}
+
+fn slot_units(e: &DirLfnEntryData) -> [u16; 13] {
+    let mut p = [0u16; 13];
+    e.copy_name_to_slice(&mut p);
+    p
+}
+
+/// builder states reached by feeding well-formed prefixes of a run (checksum c):
+/// 0: fresh; 1: after the last-flag slot of a 1-slot run; 2: after the last-flag slot of a 2-slot run;
+/// 3: after slots 3|0x40 and 2 of a 3-slot run; 4: after the last-flag slot of a 20-slot run
+fn prior_state(prior: u8, c: u8) -> (LongNameBuilder, u8, usize) {
+    let mut b = LongNameBuilder::new();
+    match prior {
+        0 => (b, 0, 0),
+        1 => {
+            b.process(&any_lfn_slot(0x41, c));
+            (b, 1, 13)
+        }
+        2 => {
+            b.process(&any_lfn_slot(0x42, c));
+            (b, 2, 26)
+        }
+        3 => {
+            b.process(&any_lfn_slot(0x43, c));
+            b.process(&any_lfn_slot(0x02, c));
+            (b, 2, 39)
+        }
+        _ => {
+            b.process(&any_lfn_slot(0x54, c));
+            (b, 20, 260)
+        }
+    }
+}
+
+/// One step of LongNameBuilder::process against the specification of long-name run assembly:
+/// a slot with the last flag (re)starts a run of `order & 0x1F` slots; a slot without it continues the run only
+/// if its number is the predecessor of the previous one AND it carries the run's checksum; anything else
+/// (number 0, number above 20, wrong number, foreign checksum, no run in progress) discards what was collected.
+pub(crate) fn lfnb_step_case(prior: u8, order: u8) {
+    let c: u8 = kani::any();
+    let (mut b, idx0, len0) = prior_state(prior, c);
+    assert!(b.index == idx0 && b.buf.len() == len0);
+    let before: [u16; 39] = {
+        let mut a = [0u16; 39];
+        let u = b.buf.as_ucs2_units();
+        let mut i = 0;
+        while i < 39 {
+            if i < u.len() {
+                a[i] = u[i];
+            }
+            i += 1;
+        }
+        a
+    };
+    let chk: u8 = kani::any();
+    let slot = any_lfn_slot(order, chk);
+    let units = slot_units(&slot);
+    b.process(&slot);
+    let idx = order & 0x1F;
+    let last = order & 0x40 != 0;
+    if idx == 0 || idx > 20 {
+        assert!(b.index == 0 && b.buf.len() == 0);
+    } else if last {
+        assert!(b.index == idx && b.chksum == chk && b.buf.len() == idx as usize * 13);
+        let k: usize = kani::any();
+        kani::assume(k < 13);
+        assert!(b.buf.as_ucs2_units()[(idx as usize - 1) * 13 + k] == units[k]);
+    } else if idx0 == 0 || idx != idx0 - 1 || chk != c {
+        // out of sequence or foreign checksum: the run is dropped (never a partial or foreign name)
+        assert!(b.index == 0 && b.buf.len() == 0);
+    } else {
+        assert!(b.index == idx && b.chksum == c && b.buf.len() == len0);
+        let k: usize = kani::any();
+        kani::assume(k < len0 && k < 39);
+        let want = if k / 13 == idx as usize - 1 { units[k % 13] } else { before[k] };
+        assert!(b.buf.as_ucs2_units()[k] == want);
+    }
+}
+
+/// Finishing a run: validate_chksum + into_buf.  n-slot run with arbitrary units, short name arbitrary.
+pub(crate) fn lfnb_finish_case(n: u8) {
+    let c: u8 = kani::any();
+    let mut b = LongNameBuilder::new();
+    let mut full = [0u16; 39];
+    let mut i = n;
+    while i >= 1 {
+        let slot = any_lfn_slot(i | if i == n { 0x40 } else { 0 }, c);
+        let u = slot_units(&slot);
+        let mut k = 0;
+        while k < 13 {
+            full[(i as usize - 1) * 13 + k] = u[k];
+            k += 1;
+        }
+        b.process(&slot);
+        i -= 1;
+    }
+    let sfn: [u8; 11] = kani::any();
+    let matches = lfn_checksum(&sfn) == c;
+    b.validate_chksum(&sfn);
+    let buf = b.into_buf();
+    let out = buf.as_ucs2_units();
+    if !matches {
+        // the run belongs to another short entry: fall back to the short name
+        assert!(out.len() == 0);
+    } else {
+        // the name is the collected units up to the padding: trailing 0x0000 / 0xFFFF units are not part of it
+        let total = n as usize * 13;
+        let mut want_len = 0;
+        let mut k = 0;
+        while k < 39 {
+            if k < total && full[k] != 0 && full[k] != 0xFFFF {
+                want_len = k + 1;
+            }
+            k += 1;
+        }
+        assert!(out.len() == want_len && out.len() <= 255);
+        let j: usize = kani::any();
+        kani::assume(j < want_len);
+        assert!(out[j] == full[j]);
+    }
+}
+
+// @obl props=C17,C19 tier=quick timeout=900 feat=fa,fn fns=LongNameBuilder::process,LongNameBuilder::into_buf,LongNameBuilder::truncate,LfnBuffer::set_len
+// @desc a run that is abandoned and restarted by a shorter one (slot 0x42 of another entry, then a complete 1-slot run): the name returned consists of the units of the restarted run only - nothing of the abandoned run leaks into it (the dynamic and the fixed-buffer build must agree)
+#[kani::proof]
+#[kani::unwind(264)]
+fn lfnb_finish_restart() {
+    let c1: u8 = kani::any();
+    let c2: u8 = kani::any();
+    let mut b = LongNameBuilder::new();
+    b.process(&any_lfn_slot(0x42, c1));
+    let slot = any_lfn_slot(0x41, c2);
+    let u = slot_units(&slot);
+    b.process(&slot);
+    let sfn: [u8; 11] = kani::any();
+    kani::assume(lfn_checksum(&sfn) == c2);
+    b.validate_chksum(&sfn);
+    let buf = b.into_buf();
+    let out = buf.as_ucs2_units();
+    let mut want_len = 0;
+    let mut k = 0;
+    while k < 13 {
+        if u[k] != 0 && u[k] != 0xFFFF {
+            want_len = k + 1;
+        }
+        k += 1;
+    }
+    assert!(out.len() == want_len);
+    let j: usize = kani::any();
+    kani::assume(j < want_len);
+    assert!(out[j] == u[j]);
+    kani::cover!(want_len == 13);
+}
+
+// @obl props=C17,C19 tier=thorough timeout=3000 heavy=1 fns=LongNameBuilder::process,LongNameBuilder::into_buf,LongNameBuilder::truncate feat=fa,fn
+// @desc a well-formed 20-slot run (the longest the builder accepts) whose 260 units are all ordinary characters: the name returned has at most 255 UTF-16 units
+#[kani::proof]
+#[kani::unwind(264)]
+fn lfnb_full_run_20_len() {
+    let c: u8 = kani::any();
+    let mut b = LongNameBuilder::new();
+    let mut i: u8 = 20;
+    while i >= 1 {
+        let mut e = DirLfnEntryData::new(i | if i == 20 { 0x40 } else { 0 }, c);
+        e.copy_name_from_slice(&[0x41u16; 13]);
+        b.process(&e);
+        i -= 1;
+    }
+    let buf = b.into_buf();
+    assert!(buf.as_ucs2_units().len() <= 255);
+    kani::cover!(true);
 }
